@@ -17,14 +17,17 @@ EXPLANATION = (
     "to a sequence, sorted, reduced or unpacked; the confirmed exceptions are the one-element pick in Container.get_pipeline_id "
     "(guarded by len == 1) and membership-only sets.  (2) no hash()/id(); random identifiers (uuid-based Node.id, DAG.dag_id) and "
     "the process-global container counter (container_id) never enter an ordering comparison or a sort/min/max key; every "
-    "sort/sorted has a key unless it sorts registry names.  (3) randomness and clocks: no `random` module calls, no global numpy "
+    "sort/sorted has a key unless it sorts registry names; a node identifier is a whole uuid4 (never a slice or other shortened form).  (3) randomness and clocks: no `random` module calls, no global numpy "
     "RNG; the only generators are np.random.default_rng(<seed parameter>); wall-clock values (time.*) exist only in the REST "
     "bridge and flow only into its timing_* statistics and log messages; no os.environ / os.urandom reads.  (4) process-global "
     "state mutated at run time is exactly the confirmed table (Container.next_container_num -> identifiers only; the two "
-    "scheduler registries, written by decorators at import; log formatters).  (5) the generator depends only on its own "
+    "scheduler registries, written by decorators at import; log formatters); no function is memoised; an instance created at module or class "
+    "level belongs to a class without methods that store to self after construction.  (5) the generator depends only on its own "
     "parameters: its named parameters are the workload parameters, **kwargs is never read, every draw is a method call on self.rng, "
     "self.rng is assigned once from default_rng(random_seed) and random_seed flows nowhere else, workload.py imports nothing from "
-    "executor/scheduler.  (6) run / gentrace / mkregression build the generator from the parameter dict itself.")
+    "executor/scheduler; missing parameters come from one literal table of defaults that is never stored into.  (6) run / gentrace / "
+    "mkregression build the generator from the parameter dict itself; a workload object is handed to one run only; inside run_simulator the "
+    "workload object is only stepped (run_one_tick(), once per tick, before the scheduler) and handed to nobody.")
 UNDECIDED = ("bit-identity of two real processes (needs runs); stability of numpy's generator stream across versions; that different seeds give different "
              "workloads beyond the seed reaching default_rng")
 ASSUMPTIONS = COMMON_ASSUMPTIONS + ["dicts and lists iterate in insertion order (language guarantee); numpy.random.Generator is deterministic for a given seed"]
